@@ -41,15 +41,30 @@ def _conn(vc, n_handlers, raising=None, cp_sessions=0):
         def set(self):
             self.is_set_ = True
 
+    class EP(object):
+        address, port = '10.0.0.1', 9042
+
+        def __str__(self):
+            return '10.0.0.1:9042'
+
     class CP(object):
         def __init__(self):
             self.errors = []
 
         def on_error(self, exc):
             self.errors.append(exc)
-    cps = {7 + j: CP() for j in range(cp_sessions)}
-    conn = vc.obj(Connection, _requests=reqs, lock=lock, is_defunct=False, is_closed=False, last_error=None, endpoint='ep',
+    cps = {7 + j: CP() for j in range(cp_sessions if isinstance(cp_sessions, int) else 0)}
+    conn = vc.obj(Connection, _requests=reqs, lock=lock, is_defunct=False, is_closed=False, last_error=None, endpoint=EP(),
                   connected_event=Ev(), _continuous_paging_sessions=cps)
+    if not isinstance(cp_sessions, int):
+        # the real ContinuousPagingSession objects, one per kind of paging state (DSE_V1 sessions have none)
+        import collections
+        from cassandra.connection import ContinuousPagingSession, ContinuousPagingState
+        from contracts.pool_common import Cond
+        for j, kind in enumerate(cp_sessions):
+            state = None if kind == 'no-paging-state' else vc.obj(ContinuousPagingState, num_pages_requested=4, num_pages_received=1, max_queue_size=4)
+            cps[7 + j] = vc.obj(ContinuousPagingSession, stream_id=7 + j, decoder=None, row_factory=None, connection=conn, _condition=Cond(LockModel('cp.condition')),
+                                _stop=False, _page_queue=collections.deque(), _state=state, released=False)
     closed = []
 
     def close(self_):
@@ -59,18 +74,21 @@ def _conn(vc, n_handlers, raising=None, cp_sessions=0):
     return conn, dict(log=log, inv=inv, closed=closed, lock=lock, cps=cps)
 
 
-@harness('C10', 'defunct', functions=[CQ + 'defunct', CQ + 'error_all_requests', CQ + 'error_all_cp_sessions'],
+@harness('C10', 'defunct', functions=[CQ + 'defunct', CQ + 'error_all_requests', CQ + 'error_all_cp_sessions', 'cassandra.connection.ContinuousPagingSession.on_error'],
          native='contracts.native.c10:replay')
 def defunct(vc):
     """ensures defunct(exc) on a live connection: marks it defunct, remembers exc, closes it once, invokes EVERY outstanding handler
-    exactly once with a ConnectionShutdown even if some handler raises, errors every continuous-paging session once, forgets all
+    exactly once with a ConnectionShutdown even if some handler raises, errors every continuous-paging session once (abstract sessions, and the real
+    ContinuousPagingSession.on_error with and without a paging state: one error queued, stopped, waiter woken - it must not raise, or the handlers below it are never reached), forgets all
     handlers, releases threads waiting for the handshake; on an already defunct/closed connection it does nothing"""
     from cassandra.connection import ConnectionShutdown
     n = vc.choice('outstanding', [0, 1, 2, 3])
     raising = vc.choice('raising_handler', [None, 0, 1, 2])
     if raising is not None and raising >= n:
         return
-    ncp = vc.choice('cp_sessions', [0, 1])
+    ncp = vc.choice('cp_sessions', [0, 1, 'real:no-paging-state', 'real:with-paging-state', 'real:both'])
+    if isinstance(ncp, str):
+        ncp = {'real:no-paging-state': ('no-paging-state',), 'real:with-paging-state': ('with-paging-state',), 'real:both': ('with-paging-state', 'no-paging-state')}[ncp]
     conn, st = _conn(vc, n, raising, ncp)
     state = vc.choice('state', ['live', 'defunct', 'closed'])
     if state == 'defunct':
@@ -78,7 +96,8 @@ def defunct(vc):
     elif state == 'closed':
         conn.attrs['is_closed'] = True
     exc = SObj(Exception, {'args': ('socket error',)})
-    vc.call(CQ + 'defunct', conn, exc)
+    kind, _r = vc.call_catch(CQ + 'defunct', conn, exc)
+    vc.check('post/defunct-itself-never-raises', kind == 'ok')
     if state != 'live':
         vc.check('idempotent/no-handler-invoked', st['log'] == [] and st['closed'] == [])
         return
@@ -88,7 +107,12 @@ def defunct(vc):
     vc.check('post/every-handler-exactly-once', all(st['inv'].get(i, 0) == 1 for i in range(n)) and len(st['log']) == n)
     vc.check('post/with-ConnectionShutdown', all(issubclass(exc_class(e[2]), ConnectionShutdown) for e in st['log']))
     vc.check('post/handlers-forgotten', conn.attrs['_requests'] == {})
-    vc.check('post/cp-sessions-errored-once', all(cp.errors == [exc] for cp in st['cps'].values()))
+    if isinstance(ncp, int):
+        vc.check('post/cp-sessions-errored-once', all(cp.errors == [exc] for cp in st['cps'].values()))
+    else:
+        vc.check('post/real-cp-sessions-errored-once-stopped-and-woken',
+                 all(list(cp.attrs['_page_queue']) == [(None, None, exc)] and cp.attrs['_stop'] is True and cp.attrs['released'] is True
+                     and cp.attrs['_condition'].notified == 1 and cp.attrs['_condition'].lock.depth == 0 for cp in st['cps'].values()))
     vc.check('post/handshake-waiters-released', conn.attrs['connected_event'].is_set_ is True)
     vc.check('post/lock-released', st['lock'].depth == 0)
     if n == 3:
